@@ -71,21 +71,21 @@ func (r Rx[T]) Val(x Sel) T {
 
 func (r Rx[T]) Val2(x Sel) (T, bool) { return r.Val(x), x.ok }
 
-func Recv[T any](ch <-chan T) T           { return <-ch }
-func Recv2[T any](ch <-chan T) (T, bool)  { v, ok := <-ch; return v, ok }
-func (t Tx[T]) Send(v T)                  { t.ch <- v }
-func Send[T any](ch chan<- T, v T)        { ch <- v }
-func Close[T any](ch chan<- T)            { close(ch) }
-func CloseRW[T any](ch chan T)            { close(ch) }
-func Go(name string, fn func())           { go fn() }
-func GoRole(role, name string, fn func()) { go fn() }
-func SetRole(role string) string          { return "" }
-func New[T any](p *T) *T                  { return p }
-func Unreachable() interface{}            { return "select returned no case" }
-func Choose(n int) int                    { return 0 }
-func Step(tag uint64)                     {}
-func Note(vals ...uint64)                 {}
-func RegisterObj(key interface{})         {}
+func Recv[T any](ch <-chan T) T               { return <-ch }
+func Recv2[T any](ch <-chan T) (T, bool)      { v, ok := <-ch; return v, ok }
+func (t Tx[T]) Send(v T)                      { t.ch <- v }
+func Send[T any](ch chan<- T, v T)            { ch <- v }
+func Close[T any](ch chan<- T)                { close(ch) }
+func CloseRW[T any](ch chan T)                { close(ch) }
+func Go(name string, fn func())               { go fn() }
+func GoRole(role, name string, fn func())     { go fn() }
+func SetRole(role string) string              { return "" }
+func New[T any](p *T) *T                      { return p }
+func Unreachable() interface{}                { return "select returned no case" }
+func Choose(n int) int                        { return 0 }
+func Step(tag uint64)                         {}
+func Note(vals ...uint64)                     {}
+func RegisterObj(key interface{})             {}
 func Logf(format string, args ...interface{}) {}
 
 var mu sync.Mutex
